@@ -18,7 +18,7 @@ pub fn scenarios() -> Vec<Scenario> {
         name: "c10-conform",
         gen,
         run,
-        quick_runs: 150_000,
+        quick_runs: 3_000_000,
         weight: 1,
         rule: "case = valid packet (every type forced in turn, every property id and code variant drawn from the harness tables); non-trivial when it has >= 1 optional field/property/non-zero code; distinct by case hash",
     }]
